@@ -276,3 +276,201 @@ Proof.
   - intros y Ly. destruct y as [|a [|? ?]]; try discriminate. replace a with ((a * c) / c) by (field; lra). rewrite !L2.
     apply Hmin. reflexivity.
 Qed.
+
+(* ================================================================ bounds and guesses are applied BY NAME *)
+From Coq Require String.
+From Coq Require Import Permutation.
+Notation string := String.string.
+Lemma assoc_perm {A} (k : string) : forall (d d' : list (string * A)),
+  Permutation d d' -> NoDup (map fst d) -> assoc k d = assoc k d'.
+Proof.
+  intros d d' P. induction P as [|[k1 v1] l l' P IH|[k1 v1] [k2 v2] l|l l' l'' P1 IH1 P2 IH2]; intros ND.
+  - reflexivity.
+  - simpl. destruct (String.eqb k k1); [reflexivity|]. apply IH. simpl in ND. inversion ND; assumption.
+  - simpl in *. destruct (String.eqb k k2) eqn:E2; destruct (String.eqb k k1) eqn:E1; try reflexivity.
+    apply String.eqb_eq in E1. apply String.eqb_eq in E2. subst. inversion ND as [|? ? Hn _]. exfalso. apply Hn. left. reflexivity.
+  - rewrite IH1 by assumption. apply IH2.
+    eapply Permutation_NoDup; [apply Permutation_map; exact P1|assumption].
+Qed.
+(* the vector handed to the optimiser at position i is the entry of param_names[i] *)
+Theorem by_name_spec {A} : forall (names : list string) (d : list (string * A)) v, by_name names d = Ok v ->
+  length v = length names
+  /\ forall i n, nth_error names i = Some n -> exists b, assoc n d = Some b /\ nth_error v i = Some b.
+Proof.
+  induction names as [|n names IH]; intros d v H; simpl in H.
+  - inversion H; subst. split; [reflexivity|]. intros [|i] m Hm; discriminate.
+  - destruct (assoc n d) as [b|] eqn:E; [|discriminate].
+    destruct (by_name names d) as [br|e] eqn:Eb; simpl in H; [|discriminate]. inversion H; subst.
+    destruct (IH d br Eb) as [L S]. split; [simpl; congruence|].
+    intros [|i] m Hm; simpl in *.
+    + inversion Hm; subst. exists b. split; [assumption|reflexivity].
+    + apply S. assumption.
+Qed.
+(* ... for ANY order in which the user wrote the dictionary *)
+Theorem by_name_perm {A} : forall (names : list string) (d d' : list (string * A)),
+  Permutation d d' -> NoDup (map fst d) -> by_name names d = by_name names d'.
+Proof.
+  induction names as [|n names IH]; intros d d' P ND; simpl; [reflexivity|].
+  rewrite (assoc_perm n d d' P ND). rewrite (IH d d' P ND). reflexivity.
+Qed.
+Lemma by_name_skip {A} : forall (names : list string) n (b : A) d, ~ In n names -> by_name names ((n, b) :: d) = by_name names d.
+Proof.
+  induction names as [|m names IH]; intros n b d Hn; simpl; [reflexivity|].
+  destruct (String.eqb m n) eqn:E; [apply String.eqb_eq in E; subst; exfalso; apply Hn; left; reflexivity|].
+  rewrite IH by (intros Hi; apply Hn; right; assumption). reflexivity.
+Qed.
+(* the default dictionary dict(zip(param_names, param_default_bounds)) gives back the default bounds, position by position *)
+Theorem by_name_defaults {A} : forall (names : list string) (defaults : list A),
+  NoDup names -> length defaults = length names -> by_name names (combine names defaults) = Ok defaults.
+Proof.
+  induction names as [|n names IH]; intros [|b ds] ND L; simpl in *; try discriminate; [reflexivity|].
+  rewrite String.eqb_refl. inversion ND; subst. rewrite by_name_skip by assumption. rewrite IH by (auto; congruence). reflexivity.
+Qed.
+Lemma Forall2_nth_error {A B} (P : A -> B -> Prop) : forall l1 l2 i a, Forall2 P l1 l2 -> nth_error l1 i = Some a ->
+  exists b, nth_error l2 i = Some b /\ P a b.
+Proof.
+  intros l1 l2 i a F. revert i. induction F as [|x y l1 l2 Pxy F IH]; intros [|i] H; simpl in *; try discriminate.
+  - inversion H; subst. exists y. split; [reflexivity|assumption].
+  - apply IH. assumption.
+Qed.
+
+Lemma F2_length {A B} (P : A -> B -> Prop) l1 l2 : Forall2 P l1 l2 -> List.length l1 = List.length l2.
+Proof. induction 1; simpl; congruence. Qed.
+
+Section NamedFit.
+  Variable calc_loading : bool.
+  Variable M : list R -> R -> R.
+  Variable lsq : (list R -> list R) -> list R -> list (R * R) -> option (list R * list R).
+  Hypothesis lsq_contract : forall f x0 b x fv, lsq f x0 b = Some (x, fv) -> fv = f x /\ in_bounds b x.
+
+  (* whenever the fit succeeds, the fitted value of EVERY parameter lies within the bounds the dictionary in force gives for that
+     parameter's NAME *)
+  Theorem fit_named_respects_named_bounds : forall names d guess data x fv,
+    fit_named RNum calc_loading M lsq names d guess data = Ok (x, fv) ->
+    length x = length names
+    /\ forall i n, nth_error names i = Some n ->
+       exists b v, assoc n d = Some b /\ nth_error x i = Some v /\ fst b <= v <= snd b.
+  Proof.
+    intros names d guess data x fv H. unfold fit_named in H.
+    match type of H with context [@by_name ?T names guess] => destruct (@by_name T names guess) as [x0|e] eqn:Eg end; simpl in H; [|discriminate].
+    match type of H with context [@by_name ?T names d] => destruct (@by_name T names d) as [bs|e] eqn:Eb end; simpl in H; [|discriminate].
+    destruct (fit_reports_rms calc_loading M lsq lsq_contract data x0 bs x fv 1 H) as [IB _].
+    destruct (by_name_spec names d bs Eb) as [L S].
+    split.
+    - unfold in_bounds in IB. transitivity (List.length bs); [symmetry; exact (F2_length _ _ _ IB) | exact L].
+    - intros i n Hn. destruct (S i n Hn) as (b & Ha & Hb).
+      destruct (Forall2_nth_error _ bs x i b IB Hb) as (v & Hv & Hin). exists b, v. auto.
+  Qed.
+  (* the outcome does not depend on the order in which the user wrote the bounds / guess dictionaries *)
+  Theorem fit_named_key_order_irrelevant : forall names d d' guess guess' data,
+    Permutation d d' -> NoDup (map fst d) -> Permutation guess guess' -> NoDup (map fst guess) ->
+    fit_named RNum calc_loading M lsq names d guess data = fit_named RNum calc_loading M lsq names d' guess' data.
+  Proof.
+    intros names d d' g g' data Pd Nd Pg Ng. unfold fit_named.
+    rewrite (by_name_perm names g g' Pg Ng). rewrite (by_name_perm names d d' Pd Nd). reflexivity.
+  Qed.
+End NamedFit.
+
+(* a user dictionary is the dictionary in force (every key checked against the parameter names); without one the defaults apply *)
+Theorem bounds_in_force_spec : forall names defaults user d,
+  bounds_in_force RNum names defaults user = Ok d ->
+  (user = [] /\ d = combine names defaults) \/ (user <> [] /\ d = user /\ Forall (fun kv => In (fst kv) names) user).
+Proof.
+  intros names defaults user d H. unfold bounds_in_force in H. destruct user as [|kv user]; [left; inversion H; auto|].
+  right. destruct (forallb _ (kv :: user)) eqn:E; [|discriminate]. inversion H; subst. split; [discriminate|]. split; [reflexivity|].
+  rewrite forallb_forall in E. apply Forall_forall. intros x Hx. specialize (E x Hx). apply existsb_exists in E.
+  destruct E as (n & Hn & En). apply String.eqb_eq in En. subst. assumption.
+Qed.
+(* initial_guess_bounds over a dictionary: every value ends inside the bounds of its own name, keys and order unchanged *)
+Theorem clamp_named_spec : forall d guess out, clamp_named RNum d guess = Ok out ->
+  map fst out = map fst guess
+  /\ Forall2 (fun g o => exists b, assoc (fst g) d = Some b /\ snd o = clamp RNum (fst b) (snd b) (snd g)
+                          /\ (fst b <= snd b -> fst b <= snd o <= snd b)) guess out.
+Proof.
+  intros d. induction guess as [|[k v] guess IH]; intros out H; simpl in H.
+  - inversion H; subst. split; [reflexivity|constructor].
+  - match type of H with context [@assoc ?T k d] => destruct (@assoc T k d) as [b|] eqn:E end; [|discriminate].
+    match type of H with bind ?X _ = _ => destruct X as [gr|e] eqn:Eg end; simpl in H; [|discriminate].
+    inversion H; subst. destruct (IH gr eq_refl) as [K F]. split; [simpl; f_equal; exact K|].
+    constructor; [|assumption]. exists b. simpl. split; [assumption|]. split; [reflexivity|]. apply clamp_in_bounds_R.
+Qed.
+
+(* ================================================================ the range that normalises the error *)
+Lemma maxl_spec : forall l a, let m := maxl RNum a l in (m = a \/ In m l) /\ a <= m /\ Forall (fun v => v <= m) l.
+Proof.
+  induction l as [|b l IH]; intros a; simpl.
+  - split; [left; reflexivity|]. split; [lra|constructor].
+  - change (nltb (n:=RNum) a b) with (Rltb a b). unfold Rltb. destruct (Rlt_dec a b) as [Lt|Ge].
+    + destruct (IH b) as (Hin & Hle & Hall). split; [destruct Hin; auto|]. split; [lra|]. constructor; assumption.
+    + destruct (IH a) as (Hin & Hle & Hall). split; [destruct Hin; auto|]. split; [lra|]. constructor; [lra|assumption].
+Qed.
+Lemma minl_spec : forall l a, let m := minl RNum a l in (m = a \/ In m l) /\ m <= a /\ Forall (fun v => m <= v) l.
+Proof.
+  induction l as [|b l IH]; intros a; simpl.
+  - split; [left; reflexivity|]. split; [lra|constructor].
+  - change (nltb (n:=RNum) b a) with (Rltb b a). unfold Rltb. destruct (Rlt_dec b a) as [Lt|Ge].
+    + destruct (IH b) as (Hin & Hle & Hall). split; [destruct Hin; auto|]. split; [lra|]. constructor; assumption.
+    + destruct (IH a) as (Hin & Hle & Hall). split; [destruct Hin; auto|]. split; [lra|]. constructor; [lra|assumption].
+Qed.
+(* (min(x), max(x)): the range is the largest minus the smallest value of the fitted rows *)
+Theorem range_of_is_max_minus_min : forall l, l <> [] ->
+  exists mx mn, In mx l /\ In mn l /\ (forall v, In v l -> mn <= v <= mx) /\ range_of RNum l = mx - mn.
+Proof.
+  intros [|a l] H; [congruence|]. clear H. simpl.
+  destruct (maxl_spec l a) as (Hi & Ha & Hall). destruct (minl_spec l a) as (Hi' & Ha' & Hall').
+  exists (maxl RNum a l), (minl RNum a l).
+  split; [destruct Hi as [->|]; [left; reflexivity|right; assumption]|].
+  split; [destruct Hi' as [->|]; [left; reflexivity|right; assumption]|].
+  split; [|reflexivity].
+  intros v [<-|Hv]; [lra|]. rewrite Forall_forall in Hall, Hall'. specialize (Hall v Hv). specialize (Hall' v Hv). simpl in *. lra.
+Qed.
+Theorem range_of_nonneg : forall l, 0 <= range_of RNum l.
+Proof.
+  intros [|a l]; [unfold range_of; rewrite z0_R; lra|].
+  destruct (range_of_is_max_minus_min (a :: l) ltac:(discriminate)) as (mx & mn & Hx & Hn & Hb & ->).
+  specialize (Hb mx Hx). lra.
+Qed.
+Theorem range_of_pos : forall l a b, In a l -> In b l -> a < b -> 0 < range_of RNum l.
+Proof.
+  intros l a b Ha Hb Lt. destruct l as [|c l]; [destruct Ha|].
+  destruct (range_of_is_max_minus_min (c :: l) ltac:(discriminate)) as (mx & mn & Hx & Hn & Hbd & ->).
+  pose proof (Hbd a Ha). pose proof (Hbd b Hb). lra.
+Qed.
+(* ... whatever the order of the rows (increasing, decreasing = a desorption branch, unsorted) *)
+Theorem range_of_perm : forall l l', Permutation l l' -> range_of RNum l = range_of RNum l'.
+Proof.
+  intros l l' P. destruct l as [|a l].
+  - apply Permutation_nil in P. subst. reflexivity.
+  - assert (Hl' : l' <> []) by (intros ->; apply Permutation_sym in P; apply Permutation_nil in P; discriminate).
+    destruct (range_of_is_max_minus_min (a :: l) ltac:(discriminate)) as (mx & mn & Hx & Hn & Hb & ->).
+    destruct (range_of_is_max_minus_min l' Hl') as (mx' & mn' & Hx' & Hn' & Hb' & ->).
+    assert (I1 : forall v, In v (a :: l) -> In v l') by (intros v; apply Permutation_in; assumption).
+    assert (I2 : forall v, In v l' -> In v (a :: l)) by (intros v; apply Permutation_in; apply Permutation_sym; assumption).
+    pose proof (Hb mx' (I2 _ Hx')). pose proof (Hb mn' (I2 _ Hn')). pose proof (Hb' mx (I1 _ Hx)). pose proof (Hb' mn (I1 _ Hn)). lra.
+Qed.
+Lemma sumsqR_perm l l' : Permutation l l' -> sumsqR l = sumsqR l'.
+Proof. induction 1; simpl; lra. Qed.
+(* the reported error is non-negative (positive range) and does not depend on the order of the fitted rows *)
+Theorem rmse_nonneg : forall f n range, 0 < range -> 0 <= rmse f n range.
+Proof.
+  intros f n range H. unfold rmse. apply Rmult_le_pos; [apply sqrt_pos|]. left. apply Rinv_0_lt_compat. assumption.
+Qed.
+Lemma rmse_sq_congr f f' n n' r r' : sumsqR f = sumsqR f' -> n = n' -> r = r' -> rmse_sq RNum f n r = rmse_sq RNum f' n' r'.
+Proof. intros H -> ->. unfold rmse_sq, mse. simpl. rewrite !sumsq_R, H. reflexivity. Qed.
+Theorem reported_rmse_order_independent : forall calc_loading (data data' : list (R * R)) fv fv',
+  Permutation data data' -> Permutation fv fv' ->
+  reported_rmse_sq RNum calc_loading data fv = reported_rmse_sq RNum calc_loading data' fv'.
+Proof.
+  intros cl data data' fv fv' Pd Pf. unfold reported_rmse_sq, model_range.
+  apply rmse_sq_congr; [apply sumsqR_perm; assumption | apply Permutation_length; assumption | apply range_of_perm, Permutation_map; assumption].
+Qed.
+(* the executed quantity is the square of the documented error: sqrt(sum r^2 / N) / (max - min) *)
+Theorem reported_rmse_sq_is_documented : forall calc_loading (data : list (R * R)) fv,
+  data <> [] -> 0 < model_range RNum calc_loading data ->
+  reported_rmse_sq RNum calc_loading data fv
+  = rmse fv (length data) (model_range RNum calc_loading data) * rmse fv (length data) (model_range RNum calc_loading data)
+  /\ 0 <= rmse fv (length data) (model_range RNum calc_loading data).
+Proof.
+  intros cl data fv Hd Hr. split; [|apply rmse_nonneg; assumption].
+  unfold reported_rmse_sq. apply rmse_sq_is_square; [destruct data; [congruence|simpl; lia]|lra].
+Qed.
